@@ -1,4 +1,5 @@
 import Crd.Props.C10
+import Crd.Props.IO
 #print axioms Crd.Props.C10.degree_survives
 #print axioms Crd.Props.C10.key_survives
 #print axioms Crd.Props.C10.fraction_survives
@@ -9,3 +10,4 @@ import Crd.Props.C10
 #print axioms Crd.Props.C10.text_conv_output_readable
 #print axioms Crd.Props.C10.decoded_is_valid
 #print axioms Crd.Props.C10.key_pattern_modelled
+#print axioms Crd.Props.IO.io_sites_accounted
